@@ -60,6 +60,7 @@ struct bitset {
     )
         : bitset(0ULL)
     {
+        TETL_PRECONDITION(pos <= str.size());
         auto const len = etl::min<decltype(pos)>(n, str.size() - pos);
         TETL_PRECONDITION(len >= 0);
         TETL_PRECONDITION(len <= size());
